@@ -415,7 +415,7 @@ pub fn run(sut: &dyn Sut, tier: Tier) -> ! {
     let fixtures = load_fixtures();
     let mut stats = Stats::new();
     stats.extra.insert("fixtures_loaded".into(), json!(fixtures.len()));
-    let cases = tier.pick(6000, 150000);
+    let cases = tier.pick(12000, 200000);
     let seed = run.seed_for(1);
     let sut_ref = sut;
     // naga's recursive-descent parser and the generator's recursion need stack; run on a big-stack thread
